@@ -211,19 +211,8 @@ func (d *disconnectHandler) handleGracePeriodExpired() {
 			)...,
 		)
 
-		d.election.becomeFollower()
-
-		d.election.mu.RLock()
-		onDemote := d.election.onDemote
-		d.election.mu.RUnlock()
-
-		if onDemote != nil {
-			log.Info("leader_demoted",
-				append(d.election.logWithContext(d.election.ctx),
-					zap.String("reason", "connection_loss"),
-				)...,
-			)
-			onDemote()
+		if d.election.becomeFollower() {
+			d.election.notifyDemoted("connection_loss")
 		}
 	}
 }
